@@ -583,6 +583,28 @@ class Gen:
             ops += [("meth", "bump", (), {}), ("attr", "_state"), ("meth", "bump", (r.randint(-2, 7),), {})]
             if r.random() < 0.3:
                 ops.append(("meth", "bump", ("s",), {}))
+        if r.random() < 0.35:
+            # callable attributes that CHANGE between two reads (re-bound, removed, recomputed from state): a forwarded
+            # read must always show the object's current attribute.  Read only through calls: a function's repr is not data.
+            ci = lines.index([l for l in lines if l.startswith("        def __init__")][0])
+            lines[ci + 1:ci + 1] = ["            self._n = 0", "            self.cb = lambda z=0: ('cb', 0, z)"]
+            lines += [
+                "        def rebind(self):",
+                "            self._n += 1",
+                "            n = self._n",
+                "            self.cb = lambda z=0: ('cb', n, z)",
+                "            return n",
+                "        def unbind(self):",
+                "            return self.__dict__.pop('cb', None) is not None",
+                "        @property",
+                "        def pcb(self):",
+                "            n = self._n",
+                "            return lambda: ('pcb', n)",
+            ]
+            ops += [("meth", "cb", (), {}), ("meth", "rebind", (), {}), ("meth", "cb", (r.randint(1, 9),), {}), ("meth", "pcb", (), {}), ("meth", "rebind", (), {}), ("meth", "pcb", (), {}), ("meth", "cb", (), {})]
+            if r.random() < 0.5:
+                ops += [("meth", "unbind", (), {}), ("meth", "cb", (), {})]
+            stateful = True
         if r.random() < 0.4:
             lines += ["        @property", "        def prop0(self):", "            return %s" % self.expr(inst_attrs + ["K0"])]
             ops.append(("attr", "prop0"))
